@@ -31,34 +31,26 @@ theorem NoInt.bind {α β : Type} {x : Except Err α} {f : α → Except Err β}
   | error e => cases h; exact hx _ rfl
   | ok a => exact hf a rfl err h
 
-theorem dictLitIndex_noInt (k : String) : ∀ (es : List Expr) (i : Nat), ∃ o, dictLitIndex k es i = .ok o
-  | [], i => ⟨_, rfl⟩
-  | e :: es, i => by
-    cases e with
-    | const c =>
-      simp only [dictLitIndex]
-      cases c <;> (try exact dictLitIndex_noInt k es (i + 1))
-      simp only []
-      split
-      · exact ⟨_, rfl⟩
-      · exact dictLitIndex_noInt k es (i + 1)
-    | _ => simp only [dictLitIndex]; exact dictLitIndex_noInt k es (i + 1)
+theorem dictLitIndex_noInt (k : String) (es : List Expr) (i : Nat) : ∃ o, dictLitIndex k es i = .ok o := ⟨_, rfl⟩
 
-theorem dictLitIndex_lt (k : String) : ∀ (es : List Expr) (i j : Nat), dictLitIndex k es i = .ok (some j) → j < i + es.length
-  | [], i, j, h => by simp [dictLitIndex] at h
+theorem dictLitIdx_lt (k : String) : ∀ (es : List Expr) (i j : Nat), dictLitIdx? k es i = some j → j < i + es.length
+  | [], i, j, h => by simp [dictLitIdx?] at h
   | e :: es, i, j, h => by
-    have ih := dictLitIndex_lt k es (i + 1) j
-    cases e with
-    | const c =>
-      simp only [dictLitIndex] at h
-      cases c with
-      | str s =>
-        simp only [] at h
-        split at h
-        · simp only [Except.ok.injEq, Option.some.injEq] at h; subst h; simp
-        · have := ih h; simp only [List.length_cons]; omega
-      | _ => simp only [] at h; have := ih h; simp only [List.length_cons]; omega
-    | _ => simp only [dictLitIndex] at h; have := ih h; simp only [List.length_cons]; omega
+    have ih := dictLitIdx_lt k es (i + 1) j
+    simp only [dictLitIdx?] at h
+    cases hr : dictLitIdx? k es (i + 1) with
+    | some j' =>
+      simp only [hr, Option.some.injEq] at h; subst h
+      have := ih hr; simp only [List.length_cons]; omega
+    | none =>
+      simp only [hr] at h
+      split at h
+      · simp only [Option.some.injEq] at h; subst h; simp
+      · cases h
+
+theorem dictLitIndex_lt (k : String) (es : List Expr) (i j : Nat) (h : dictLitIndex k es i = .ok (some j)) : j < i + es.length := by
+  simp only [dictLitIndex, Except.ok.injEq] at h
+  exact dictLitIdx_lt k es i j h
 
 theorem litSafe_noInt {e : Expr} (h : litSafe e = true) : NoInt (litKey e) := by
   intro err he
